@@ -1,6 +1,7 @@
 """C01 — HTML tokenization equals the WHATWG tokenization algorithm (DESIGN 4.C01)."""
 from lib import machine as mc
-from . import tok_common
+from lib import speccmp
+from . import tok_common, nf_common
 
 MANIFEST = {
     "text": "Translation validation: the tokenizer's transition function (73 concrete states x exact character partition x guard valuations), its helper methods and the character-reference sub-tokenizer are extracted from the source and compared pointwise with a reference reviewed against the WHATWG tokenization section. Right level because the property is 'equals a table-driven algorithm': agreement of tables is decidable from the code, behaviour on strings is not sampled at all.",
@@ -14,7 +15,10 @@ Tokenizer::step and eof_step is extracted from the macro-expanded source by deci
 concrete states x an exact partition of char x all guard valuations) and compared pointwise with
 ref/html_tokenizer.json, which was reviewed state by state against the WHATWG tokenization section; every helper
 method and the character-reference sub-tokenizer are compared in normal form (guards, input events -> ordered
-effects, result) with the same reference.  Decides that the code's tables equal the reviewed tables; does not decide
+effects, result) with the same reference.  Independently (R01.5) the extracted machine is checked bisimilar to a transcription of the standard's state machine
+(ref/whatwg_tokenizer.py): per state x input class x guard valuation, reconsume chains folded, effects compared per
+channel (output, temporary buffer, tag, comment, doctype), successor states related; where the code skips a state of
+the standard the successor pair is added to the relation and checked.  Decides that the code's tables equal the reviewed tables and the transcription; does not decide
 that the review equals the standard, nor the behaviour of StrTendril / BufferQueue / the sink.
 """
 ASSUMPTIONS = [
@@ -30,6 +34,7 @@ def run(ctx):
     ctx.rule("R01.2", "every concrete state has its own row in step and eof_step; a path that starts a character reference returns to the driver")
     ctx.rule("R01.3", "helper methods of Tokenizer in normal form equal the reviewed reference")
     ctx.rule("R01.4", "CharRefTokenizer methods in normal form equal the reviewed reference")
+    ctx.rule("R01.5", "the extracted machine is bisimilar (big-step: reconsume chains folded; effects per channel; parse errors excluded) to the independent transcription of the WHATWG tokenizer in ref/whatwg_tokenizer.py")
     T = ctx.guard("R01.1", "tables", lambda: ctx.tables("html"))
     if T is None:
         return
@@ -51,14 +56,27 @@ def run(ctx):
                 ctx.ob("R01.2", "charref-start-must-return/" + st, False, "a path starts the char-ref sub-tokenizer and loops inside step instead of returning Continue")
     n += tok_common.compare_section(ctx, "R01.3", "html", "helpers", T, R, "fn")
     n += tok_common.compare_section(ctx, "R01.4", "html", "charref", T, R, "fn")
+    ctx.guard("R01.3", "nf-misc", lambda: nf_common.nf_rule(ctx, "R01.3", "html_tokenizer_misc", floor=8))
     tok_common.not_tabulated(ctx, "R01.3", T, R)
     ctx.floor("R01.3", "helpers", len(T["helpers"]), 30)
     ctx.floor("R01.4", "charref-fns", len(T["charref"]), 15)
     ctx.floor("R01.1", "cells", sum(len(v or []) for v in T["step"].values()), 3000)
+    # R01.5: second, independent oracle -- the standard's state machine transcribed as data, compared by bisimulation
+    def spec_cmp():
+        J = {"step": mc.to_json(T["step"]), "eof_step": mc.to_json(T["eof_step"]), "helpers": mc.to_json(T["helpers"])}
+        notes = set()
+        k = speccmp.compare(J, lambda key, d: ctx.ob("R01.5", key, True, d),
+                            lambda key, kind, d: ctx.ob("R01.5", key + "/" + kind, False, d, "html tokenizer vs WHATWG transcription"), notes)
+        _cmp["error_notes"] = sorted(notes)
+        return k
+    k = ctx.guard("R01.5", "spec-bisimulation", spec_cmp)
+    ctx.floor("R01.5", "big-steps-compared", k or 0, 15000)
+    n += k or 0
     _cmp["n"] = n
     _cmp["programs"] = 2 * len(T["states"]) + len(T["helpers"]) + len(T["charref"])
     ctx.analysed.update(functions=_cmp["programs"], states=len(T["states"]), char_classes=len(T["classes"]))
 
 
 def coverage_extra(ctx):
-    return {"programs": _cmp["programs"], "disagreements_checked": _cmp["n"]}
+    return {"programs": _cmp["programs"], "disagreements_checked": _cmp["n"],
+            "parse_error_differences_not_armed": len(_cmp.get("error_notes", []))}
